@@ -402,7 +402,16 @@ def check_history(case, rec):
     with quiet():
         model = lib(build_model, spec, _tags=tags)
         kw = _gen_kw(case)
-        srf = lib(gs.SRF, model, generator=g, seed=case["seed"], **kw, _tags=tags)
+        kw_ctor = dict(kw)
+        per_arr = None
+        if g == "Fourier" and isinstance(kw.get("period"), list) and len(kw["period"]) == dim:
+            # the period handed over as a float array which the caller re-uses for something else afterwards
+            per_arr = np.array(kw["period"], dtype=np.double)
+            kw_ctor["period"] = per_arr
+        srf = lib(gs.SRF, model, generator=g, seed=case["seed"], **kw_ctor, _tags=tags)
+        if per_arr is not None:
+            per_arr *= 0.37
+            rec.label("period_array_reused_by_caller")
         cur_seed = case["seed"]
         orig = build_model(spec)
         um = model  # the model object the user holds and edits (the one handed to the SRF last)
@@ -496,7 +505,12 @@ def check_history(case, rec):
                     srf.generator.sampling = op["v"]
                 elif k == "period":
                     kw["period"] = op["v"]
-                    srf.generator.period = op["v"]
+                    if isinstance(op["v"], list) and len(op["v"]) == dim:
+                        pa_ = np.array(op["v"], dtype=np.double)
+                        srf.generator.period = pa_
+                        pa_ += 5.0
+                    else:
+                        srf.generator.period = op["v"]
                 elif k == "fmodes":
                     kw["mode_no"] = op["v"]
                     srf.generator.mode_no = op["v"]
